@@ -120,4 +120,71 @@ CLAIMS = {
                      'text), dependence of refusals on requested and stored '
                      'ids, token-normalisation and axis/key agreement rules',
     },
+    'C01': {
+        'text': 'Decides writer/reader agreement, a necessary condition of '
+                'the HDF5 round trip, for all tables at once: every '
+                'attribute and path read by both code paths of from_hdf5 is '
+                'created by to_hdf5 (abstract evaluation of group handles '
+                'and of the axis loop); ids, string metadata, list metadata '
+                'and group metadata are encoded utf8 by the writer and '
+                'explicitly decoded utf8 by the reader before being '
+                'compared, converted or handed to the constructor '
+                '(flow-sensitive taint; numpy bytes->U counts as ASCII); the '
+                'formatter and parser registries have the same keys mapped '
+                'to paired functions and honour user overrides; the inverse '
+                "sentinels agree ('/' <-> '@@SLASH@@', \"\" padding <-> "
+                'stripping, absent type, placeholder id, isoformat <-> '
+                'fromisoformat); the matrix group read follows the axis and '
+                'becomes csc for sample / csr for observation; load_table / '
+                'save_table forward handle and arguments. Bit-identity of '
+                'values, compression and format sniffing are delegated to '
+                'h5py/scipy and not decided.',
+        'note': 'Trusted: h5py vlen-str datasets read as bytes and str '
+                'attributes round-trip as UTF-8; scipy constructors.',
+        'technique': 'static analysis: abstract evaluation of HDF5 path '
+                     'expressions on writer and reader, registry/sentinel '
+                     'agreement, flow-sensitive codec taint',
+    },
+    'C04': {
+        'text': 'Decides that the 8 attributes, 8 groups and 8 datasets '
+                'required by doc/.../biom-2.1.rst are created by to_hdf5 on '
+                'every path (CFG must-pass-through over the axis loop, both '
+                'ids branches) with the specified element types (float64 / '
+                'int32 / int32 / vlen str); observation is written from the '
+                'csr layout and sample from csc; ids, metadata, group '
+                'metadata use the loop axis; the raw arrays written are '
+                'those of the freshly converted matrix; nnz, the (nnz,) '
+                'dataset lengths and the raw-array reads all follow the '
+                'elimination of stored zeros; shape is the matrix shape. '
+                'Monotonicity/range of the offset and index arrays and '
+                'equality of the two decoded copies follow from scipy\'s '
+                'asformat contract given these clauses, but are not proved.',
+        'note': 'Trusted: the .rst specification, scipy asformat, h5py '
+                'create_dataset.',
+        'technique': 'static analysis: writer model vs parsed specification, '
+                     'CFG must-pass-through, OR-CANON dominance, axis/layout '
+                     'pairing',
+    },
+    'C16': {
+        'text': 'Decides that equality and the structure-sensitive accessors '
+                'depend on content only: (G) the constructor eliminates '
+                'stored zeros from its own copy and every later store into '
+                '_data installs a canonical or invariant-preserving matrix '
+                '(flow-sensitive canonical-state analysis of all 11 stores), '
+                'so that every structure-sensitive consumption - equality\'s '
+                'stored-entry counts, nonzero()\'s index walk, min/max over '
+                '.data, the slices handed to transform callbacks - sees a '
+                'canonical matrix (or is dominated by a local elimination); '
+                'equality reads no index array / format / sortedness; '
+                '__eq__ and descriptive_equality make the same comparisons '
+                '(class, type, ids and metadata on both axes, data) on the '
+                'same operands; __ne__ negates __eq__. The algebraic laws '
+                'themselves follow from content-only comparison plus '
+                'numpy/scipy semantics and are not proved.',
+        'note': 'Trusted: scipy value-preservation table (conversions, '
+                'astype copies, eliminate_zeros, comparison results).',
+        'technique': 'static analysis: typestate (CANON/NONCANON) over all '
+                     'stores to _data, dominance-based local discharge, '
+                     'representation-read taint, sibling comparison',
+    },
 }
